@@ -165,7 +165,7 @@ long _ftol2(double dValue) {return _ftol(dValue);}
                              (type >= CGNS_ENUMV(BAR_4) && \
                               type <= CGNS_ENUMV(HEXA_125)))
 
-#define CHECK_FILE_OPEN if (cg == NULL) {\
+#define CHECK_FILE_OPEN if (cg == NULL || cg->mode == CG_MODE_CLOSED) {\
     cgi_error("no current CGNS file open");\
     return CG_ERROR;\
 }
@@ -867,6 +867,12 @@ int cg_close(int fn)
      /* Free the in-memory copy of the CGNS file */
     cgi_free_file(cg);
     cg->mode = CG_MODE_CLOSED;
+
+     /* the position set by cg_goto pointed into the tree that was just freed */
+    if (posit_file == fn) {
+        posit = 0;
+        posit_file = posit_base = posit_zone = posit_depth = 0;
+    }
 
     /* if all files are closed, free up memory */
 
